@@ -10,7 +10,7 @@ import numpy
 from lib import common as C
 
 PROP = "C16"
-PROPS_FILES = ["Props/C16.v"]
+PROPS_FILES = ["Props/C16.v", "Props/C16_hist.v"]
 KNOWN_SIG = "C16:spe-search-no-violators-gamma-zero"
 ASSUMPTIONS = [
   "exact arithmetic over Q: every finite double is a rational; the split is compared exactly on dyadic gamma / forget factor (k/64, j/16) so int(gamma*n) is exact; densities, ratio and bandwidths are compared with a 1e-12 relative tolerance (exp, sqrt and division round)",
@@ -18,6 +18,7 @@ ASSUMPTIONS = [
   "kernel values are inputs of the density theorems with 0 <= k(x,p) <= alpha = k(p,p) (validity of the kernels is C03); the harness checks that contract in Coq on the rows the real covariance produced",
   "NaN/inf floats are the value None of the model (empty point set -> NaN spread and NaN density); finite observations and points by precondition",
   "the search variant is modelled from the view's scaled constraint values and scaled thresholds on (the scaling is C12); the searcher restates satisfaction on the raw values, objectives and thresholds",
+  "histories on a live estimator (Model/ParzenHist.v): the kernel is a parameter of the model and of its theorems; the in-Coq correspondence runs the real estimator class with a RadialCovariance whose radial profile is the rational function 1/(1+r^2) (ParzenHist.rkern; dyadic points and length scales, so only the division and the mean round: 1e-12), the searcher runs the same histories with the real C4 Matern kernel against closed forms",
 ]
 TRUSTED = ["tools/props/C16.py case generator, argsort / covariance-class logging shims and the Q-literal printer",
            "Model/ParzenSplitCorr.v check function (split_spec_b is evaluated, not proved equivalent to the Prop; the exact comparison with form_model under the logged permutation is what ties the output to theorem C16_split_spec)"]
@@ -161,6 +162,9 @@ def _run_impl(kind, inp):
       cov = SPENextPoints.form_one_hot_covariance(Rec, dom, pts, inp["cat_ls"], inp["factor"])
     assert numpy.array_equal(p0, pts), "form_one_hot_covariance modified its input"
     return dict(raw=calls[0], final=[float(h) for h in cov.hyperparameters], ncalls=len(calls))
+  if kind == "hist":
+    init, outs, snaps, resolved = _run_hist(inp, "rational")
+    return dict(init=init, outs=outs, snaps=snaps, resolved=resolved)
   if kind == "search":
     view = make_search_view(inp)
     pf = numpy.array(view.points_sampled_for_pf_values, dtype=float)
@@ -187,6 +191,118 @@ def _run_impl(kind, inp):
                 gamma=float(spe.gamma), klow=klow.tolist(), kgre=kgre.tolist(), lpdf=float(l[0]), gpdf=float(g[0]), ei=float(e[0]),
                 hyper_l=[float(h) for h in spe.lower_covariance.hyperparameters], hyper_g=[float(h) for h in spe.greater_covariance.hyperparameters])
   raise ValueError(kind)
+
+
+_RATIONAL = []
+
+
+def rational_cov():
+  """A RadialCovariance of the library whose radial profile is 1 / (1 + r^2) (= ParzenHist.rkern): everything else - scaling by the
+  length scales, the distance expansion, the process variance, the matrix layout - is the library's own code."""
+  if not _RATIONAL:
+    C4, _, _ = _lib()
+    class RationalRadial(C4):
+      def eval_radial_kernel(self, distance_matrix_squared):
+        return 1.0 / (1.0 + distance_matrix_squared)
+    _RATIONAL.append(RationalRadial)
+  return _RATIONAL[0]
+
+
+def snap_estimator(spe):
+  rows = lambda a, d: numpy.asarray(a, dtype=float).reshape((-1, d)).tolist()
+  d = int(spe.dim)
+  return dict(dim=d, lower=rows(spe.lower_points, d), greater=rows(spe.greater_points, d),
+              lower_lies=[[float(v) for v in l] for l in spe.lower_lies], greater_lies=[[float(v) for v in l] for l in spe.greater_lies],
+              gamma=float(spe.gamma), hl=[float(h) for h in spe.lower_covariance.hyperparameters],
+              hg=[float(h) for h in spe.greater_covariance.hyperparameters])
+
+
+def run_hist(inp, kernel="c4"):
+  """One live estimator object and a history of operations on it.  Returns (init, outs, snaps, resolved): the object after
+  construction, what each operation returned, the object after each operation, and the operations with stash references and
+  own-array evaluation points resolved to values."""
+  with warnings.catch_warnings():
+    warnings.simplefilter("ignore")
+    return _run_hist(inp, kernel)
+
+
+def _run_hist(inp, kernel):
+  C4, SPE, Err = _lib()
+  K = rational_cov() if kernel == "rational" else C4
+  if inp.get("start") == "search":
+    view = make_search_view(inp["search"])
+    spe = view.form_sigopt_parzen_estimator_for_search(view.one_hot_points_sampled_points,
+                                                       view.points_sampled_for_pf_values[:, inp["search"]["metric"]])
+  else:
+    spe = SPE(lower_covariance=K(inp["hyper_l"]), greater_covariance=K(inp["hyper_g"]),
+              points_sampled_points=numpy.array(inp["pts"], dtype=float), points_sampled_values=numpy.array(inp["vals"], dtype=float),
+              gamma=inp["gamma"], forget_factor=inp.get("forget", 0.0))
+  bufs = {}
+  def arr(rows, shared=False):
+    a = numpy.array(rows, dtype=float).reshape((len(rows), spe.dim))
+    if not shared:
+      return a
+    b = bufs.setdefault(a.shape, numpy.empty(a.shape))   # one caller-owned buffer per shape, overwritten in place and passed again
+    b[...] = a
+    return b
+  lies = lambda rows: [numpy.array(r, dtype=float) for r in rows]
+  init = snap_estimator(spe)
+  outs, snaps, resolved, stashes = [], [], [], []
+  for op in inp["ops"]:
+    k, out, res = op[0], ["none"], list(op)
+    if k == "append":
+      spe.append_lies(lies(op[1]), lower=bool(op[2]))
+    elif k == "clear":
+      spe.clear_lies()
+    elif k == "stash":
+      st = spe.stash_lies()
+      stashes.append(st)
+      out = ["stash", [[float(v) for v in l] for l in st[0]], [[float(v) for v in l] for l in st[1]]]
+    elif k == "recover_stash":
+      st = stashes[op[1]]
+      res = ["recover", [[float(v) for v in l] for l in st[0]], [[float(v) for v in l] for l in st[1]]]
+      spe.recover_lies(st)
+    elif k == "recover":
+      spe.recover_lies((lies(op[1]), lies(op[2])))
+    elif k == "cov":
+      try:
+        spe.update_covariances(K(op[1]), K(op[2]))
+      except AssertionError:
+        out = ["err"]
+    elif k == "cov_set":
+      if op[1]:
+        spe.lower_covariance.hyperparameters = list(op[2])
+      else:
+        spe.greater_covariance.hyperparameters = list(op[2])
+    elif k == "gamma":
+      spe.gamma = op[1]
+    elif k == "lower":
+      spe.lower_points = arr(op[1])
+    elif k == "greater":
+      spe.greater_points = arr(op[1])
+    elif k in ("eval", "eval_own"):
+      if k == "eval_own":                       # the estimator's own array is the argument (as suggest_next_points_constant_liar does)
+        own = spe.lower_points if op[1] == "lower" else spe.greater_points
+        res = ["eval", numpy.asarray(own, dtype=float).tolist()]
+        l, g, e = spe.evaluate_expected_improvement(own)
+      else:
+        l, g, e = spe.evaluate_expected_improvement(arr(op[1], len(op) > 2))
+      out = ["ei", [[float(a), float(b), float(c)] for a, b, c in zip(l, g, e)]]
+    elif k == "ldens":
+      out = ["dens", [float(v) for v in spe.evaluate_lower_density(arr(op[1], len(op) > 2))]]
+    elif k == "gdens":
+      out = ["dens", [float(v) for v in spe.evaluate_greater_density(arr(op[1], len(op) > 2))]]
+    elif k == "objective":
+      spe.current_point = numpy.array(op[1], dtype=float)
+      out = ["val", float(spe.compute_objective_function())]
+    elif k == "grad":                           # value-then-gradient at the same point is what the optimisers do; the gradient itself is C04
+      spe.evaluate_grad_expected_improvement(arr(op[1]))
+    else:
+      raise ValueError(k)
+    outs.append(out)
+    resolved.append(res)
+    snaps.append(snap_estimator(spe))
+  return init, outs, snaps, resolved
 
 
 def make_search_view(inp):
@@ -335,11 +451,101 @@ def gen_search(rng, force=None):
   return dict(comps=comps, pts=pts, values=values, objectives=objectives, thresholds=thr, metric=rng.randrange(nm), x=x, mode=mode)
 
 
-GEN = dict(split=gen_split, dens=gen_dens, lie=lambda rng: gen_dens(rng, lie=True), band=gen_band, search=gen_search)
+DYADIC_LS = [0.25, 0.5, 1.0, 1.0, 2.0, 4.0]
+
+
+def gen_hyper_dyadic(rng, dim):
+  return [rng.choice([0.5, 1.0, 1.0, 2.0, 3.25])] + [rng.choice(DYADIC_LS) for _ in range(dim)]
+
+
+def gen_hist_ops(rng, dim, rows, n_lower, n_greater, allow_assign=True, extras=False):
+  """A history on one estimator.  `rows` are the one-hot rows lies / evaluation points / assigned sets are drawn from (observed
+  points and fresh ones).  The evaluation points come from a pool of 2-3 point sets, so the same points are evaluated again and
+  again while the estimator changes in between - in particular without changing the sizes of its sets (a lie withdrawn and
+  replaced, kernels replaced or re-tuned, gamma or a set assigned)."""
+  pick = lambda: list(rng.choice(rows))
+  pool = [[pick() for _ in range(rng.choice([1, 1, 2, 3]))] for _ in range(rng.choice([1, 2, 2, 3]))]
+  at_eval = lambda: list(rng.choice(rng.choice(pool)))
+  lie = lambda: at_eval() if rng.random() < 0.5 else pick()
+  size = {True: n_lower, False: n_greater}      # current number of rows of the lower / greater set
+  out = {True: 0, False: 0}                     # lies outstanding
+  nst, ops = 0, []
+  def evaluation():
+    xs = rng.choice(pool)
+    r = rng.random()
+    buf = ["buf"] if rng.random() < 0.3 else []   # the points arrive in a buffer the caller re-uses (same object, other content)
+    if r < 0.55:
+      return ["eval", xs] + buf
+    if r < 0.7:
+      return ["ldens", xs] + buf
+    if r < 0.85:
+      return ["gdens", xs] + buf
+    return ["objective", xs[0]]
+  ops.append(evaluation())
+  for _ in range(rng.randint(3, 9)):
+    r = rng.random()
+    if r < 0.16:
+      low = rng.random() < 0.4
+      k = rng.choice([1, 1, 2])
+      ops.append(["append", [lie() for _ in range(k)], low])
+      out[low] += k
+      size[low] += k
+    elif r < 0.30 and (out[True] or out[False]):         # the lies told are withdrawn and replaced by as many others
+      ops.append(["clear"])
+      if rng.random() < 0.5:
+        ops.append(evaluation())
+      for low in (True, False):
+        if out[low]:
+          ops.append(["append", [lie() for _ in range(out[low])], low])
+    elif r < 0.36 and (out[True] or out[False]):         # ... or through recover_lies
+      ops.append(["recover", [lie() for _ in range(out[True])], [lie() for _ in range(out[False])]])
+    elif r < 0.40:
+      ops.append(["clear"])
+      size[True] -= out[True]
+      size[False] -= out[False]
+      out[True] = out[False] = 0
+    elif r < 0.46:
+      ops.append(["stash"])
+      nst += 1
+    elif r < 0.50 and nst:
+      ops.append(["recover_stash", rng.randrange(nst)])
+      ops.append(evaluation())
+      return ops                                           # the counts after an old stash are not tracked here: end of the history
+    elif r < 0.60:
+      ops.append(["cov", gen_hyper_dyadic(rng, dim), gen_hyper_dyadic(rng, dim)])
+    elif r < 0.67:
+      ops.append(["cov_set", rng.random() < 0.5, gen_hyper_dyadic(rng, dim)])
+    elif r < 0.74:
+      ops.append(["gamma", rng.randint(1, 63) / 64.0])
+    elif r < 0.84 and allow_assign:
+      low = rng.random() < 0.5
+      if out[low] == 0 or (extras and rng.random() < 0.3):
+        k = size[low] if rng.random() < 0.7 else rng.randint(out[low] + 2, out[low] + 8)
+        ops.append(["lower" if low else "greater", [pick() for _ in range(k)]])
+        size[low] = k
+    elif r < 0.87 and extras:
+      ops.append(["cov", gen_hyper_dyadic(rng, dim + rng.choice([-1, 1]) if dim > 1 else dim + 1), gen_hyper_dyadic(rng, dim)])
+    elif r < 0.90:
+      ops.append(["eval_own", rng.choice(["lower", "greater"])])
+    ops.append(evaluation())
+  return ops
+
+
+def gen_hist(rng):
+  n, dim = rng.randint(10, 16), rng.randint(1, 3)
+  inp = dict(pts=gen_points(rng, n, dim), vals=gen_values(rng, n), gamma=rng.randint(1, 63) / 64.0, forget=0.0,
+             hyper_l=gen_hyper_dyadic(rng, dim), hyper_g=gen_hyper_dyadic(rng, dim))
+  rows = [list(p) for p in inp["pts"]] + [[rng.randint(0, 24) / 4 for _ in range(dim)] for _ in range(6)]
+  s = max(int(Fraction(inp["gamma"]) * n), 3)
+  inp["ops"] = gen_hist_ops(rng, dim, rows, s, n - s, extras=True)
+  return inp
+
+
+GEN = dict(split=gen_split, dens=gen_dens, lie=lambda rng: gen_dens(rng, lie=True), band=gen_band, search=gen_search, hist=gen_hist)
 
 
 def gen_case(rng):
-  kind = rng.choice(["split"] * 5 + ["dens"] * 2 + ["lie"] * 2 + ["band"] * 2 + ["search"] * 3)
+  kind = rng.choice(["split"] * 5 + ["dens"] * 2 + ["lie"] * 2 + ["band"] * 2 + ["search"] * 3 + ["hist"] * 3)
   return kind, GEN[kind](rng)
 
 
@@ -364,6 +570,64 @@ def ei_lit(l, g, e):
   return f"(Some ({C.qlit(l)}, {C.qlit(g)}, {C.qlit(e)}))"
 
 
+def est_lit(e):
+  return (f"(mkEst (Lies.mkPz {C.nlit(e['dim'])} {qrows(e['lower'])} {qrows(e['greater'])} {qrows(e['lower_lies'])} {qrows(e['greater_lies'])}) "
+          f"{C.qlit(e['gamma'])} {C.listlit(e['hl'], C.qlit)} {C.listlit(e['hg'], C.qlit)})")
+
+
+def hop_lit(op):
+  k = op[0]
+  if k == "append":
+    return f"(HLie (Lies.PAppend {qrows(op[1])} {C.blit(op[2])}))"
+  if k == "clear":
+    return "(HLie Lies.PClear)"
+  if k == "stash":
+    return "(HLie Lies.PStash)"
+  if k == "recover":
+    return f"(HLie (Lies.PRecover {qrows(op[1])} {qrows(op[2])}))"
+  if k == "cov":
+    return f"(HCov {C.listlit(op[1], C.qlit)} {C.listlit(op[2], C.qlit)})"
+  if k == "cov_set":
+    return f"(HCovSet {C.blit(op[1])} {C.listlit(op[2], C.qlit)})"
+  if k == "gamma":
+    return f"(HGamma {C.qlit(op[1])})"
+  if k in ("lower", "greater"):
+    return f"({'HLower' if k == 'lower' else 'HGreater'} {qrows(op[1])})"
+  if k in ("eval", "ldens", "gdens"):
+    return f"({dict(eval='HEval', ldens='HLowerDens', gdens='HGreaterDens')[k]} {qrows(op[1])})"
+  if k == "objective":
+    return f"(HObjective {C.listlit(op[1], C.qlit)})"
+  raise ValueError(k)
+
+
+def hout_lit(o):
+  k = o[0]
+  if k == "none":
+    return "HNone"
+  if k == "err":
+    return "HErr"
+  if k == "stash":
+    return f"(HLieOut (Lies.OStash {qrows(o[1])} {qrows(o[2])}))"
+  if k == "ei":
+    return f"(HEI {C.listlit([ei_lit(*t) for t in o[1]])})"
+  if k == "dens":
+    return f"(HDens {C.listlit(o[1], qopt)})"
+  if k == "val":
+    return f"(HVal {qopt(o[1])})"
+  raise ValueError(k)
+
+
+def hist_out_lits(out):
+  """Lie operations answer through the lie state machine: HLieOut ONone."""
+  lits = []
+  for op, o in zip(out["resolved"], out["outs"]):
+    if op[0] in ("append", "clear", "recover") and o[0] == "none":
+      lits.append("(HLieOut Lies.ONone)")
+    else:
+      lits.append(hout_lit(o))
+  return lits
+
+
 def coq_cases(kind, inp, out):
   """One input may print several Coq cases (the search variant also prints its densities)."""
   if kind == "split":
@@ -379,6 +643,9 @@ def coq_cases(kind, inp, out):
     dim, numerical = one_hot_layout(inp["comps"])
     return [f"CBand {C.listlit(numerical, C.nlit)} {C.qlit(inp['cat_ls'])} {C.qlit(inp['factor'])} {C.nlit(dim)} {qrows(inp['pts'])} "
             f"{C.listlit(out['raw'], qopt)} {C.listlit(out['final'], qopt)}"]
+  if kind == "hist":
+    return [f"CHist {est_lit(out['init'])} {C.listlit([hop_lit(o) for o in out['resolved']])} {C.listlit(hist_out_lits(out))} "
+            f"{C.listlit([est_lit(e) for e in out['snaps']])}"]
   if kind == "search":
     dim, _ = one_hot_layout(inp["comps"])
     head = (f"CSearch {C.qlit(0.2)} {C.nlit(dim)} {qrows(out['oh'])} {C.listlit(out['vals'], C.qlit)} {permlit(out.get('perm'))} "
@@ -410,7 +677,25 @@ def branch(kind, inp, out):
     return "band:fallback" if out["ncalls"] > 1 else "band:from-spread"
   if kind == "lie":
     return "lie:lower" if inp["lower"] else "lie:greater"
+  if kind == "hist":
+    return "hist:same-points-again-after-a-size-preserving-change" if stale_opportunities(out) else "hist:other"
   return kind
+
+
+def stale_opportunities(out):
+  """Number of evaluations that repeat the points of the previous evaluation through the same entry point while the estimator
+  holds sets of the same sizes but different content / kernels / gamma (measured on the implementation's own snapshots)."""
+  states = [out["init"]] + out["snaps"]
+  last, count = {}, 0
+  for i, (op, o) in enumerate(zip(out["resolved"], out["outs"])):
+    if op[0] not in ("eval", "ldens", "gdens", "objective"):
+      continue
+    key, st = (op[0], repr(op[1])), states[i]
+    prev = last.get(key)
+    if prev is not None and len(prev["lower"]) == len(st["lower"]) and len(prev["greater"]) == len(st["greater"]) and prev != st:
+      count += 1
+    last[key] = st
+  return count
 
 
 def nontrivial(kind, inp, out):
@@ -420,6 +705,10 @@ def nontrivial(kind, inp, out):
     return not out["error"]
   if kind == "band":
     return len(inp["pts"]) >= 2
+  if kind == "hist":                              # at least two evaluations with a change of the estimator in between
+    ev = [i for i, op in enumerate(out["resolved"]) if op[0] in ("eval", "ldens", "gdens", "objective")]
+    states = [out["init"]] + out["snaps"]
+    return any(states[i] != states[j] for i in ev for j in ev if i < j)
   return True
 
 
@@ -444,7 +733,8 @@ def correspondence(ctx):
     if h not in seen and nontrivial(kind, inp, out):
       nontriv += 1
     seen.add(h)
-  bad = C.run_cases("C16", "From Coq Require Import List QArith ZArith Bool.\nFrom LV Require Import Model.ParzenSplit Model.ParzenSplitCorr.\nOpen Scope Q_scope.",
+  bad = C.run_cases("C16", "From Coq Require Import List QArith ZArith Bool.\nFrom LV Require Import Model.ParzenSplit Model.ParzenHist Model.ParzenSplitCorr.\n"
+                           "From LV Require Model.Lies.\nOpen Scope Q_scope.",
                     "case", "check", cases, shard=60)
   for i in bad:
     k, inp, out = meta[i]
@@ -454,8 +744,12 @@ def correspondence(ctx):
               rule="estimators on 5..48 observations in 1-3 dimensions (quarter-integer points with duplicates and constant columns, integer values with "
                    "many ties), gamma k/64, forget factor j/16; densities / lies at data points, fresh points and far points with random C4 hyperparameters; "
                    "bandwidths on one-hot point sets of 0..12 rows over mixed double/int/categorical domains; the search variant through a real "
-                   "SPESearchNextPoints view (1-3 constraint metrics, NaN thresholds, every threshold regime). Non-trivial = a successful split with "
-                   ">= 2 distinct values / a constructed search estimator / >= 2 rows for bandwidths; distinct by hash of the canonical input",
+                   "SPESearchNextPoints view (1-3 constraint metrics, NaN thresholds, every threshold regime); histories of 4-25 operations on one "
+                   "live estimator (lies told / withdrawn / replaced by as many others / stashed / recovered, update_covariances incl. a refused "
+                   "one, hyperparameters assigned in place, gamma and the two sets assigned directly, the four evaluation entry points on a pool of "
+                   "2-3 point sets so that the same points are re-evaluated after the change; rational kernel). Non-trivial = a successful split with "
+                   ">= 2 distinct values / a constructed search estimator / >= 2 rows for bandwidths / a history with two evaluations around a change "
+                   "of the estimator; distinct by hash of the canonical input",
               samples=[dict(kind=k, input=i, impl_output=o) for k, i, o in meta[:3]], distribution=dist, disagreements=dis)
 
 
@@ -638,8 +932,125 @@ def oracle_search(inp):
   return None
 
 
+EVALS = ("eval", "ldens", "gdens", "objective")
+STATS = dict(lie_monotone=0, re_evaluated=0)       # how often the history oracle reached these clauses (reported by the searcher)
+
+
+def oracle_hist(inp):
+  """Histories on one live estimator with the real C4 kernel: after every operation the estimator holds the split's sets plus the
+  lies outstanding, and every evaluation is the closed form for the sets, kernels and gamma held at that moment."""
+  kind = "hist"
+  try:
+    init, outs, snaps, ops = run_hist(inp, "c4")
+  except Exception as e:
+    return fail(kind, f"raises:{type(e).__name__}", inp, repr(e), "a history without exception", "no exception on valid operations")
+  txt = ("plain-Python bookkeeping of what the estimator must hold (the constructor's / search view's sets, then: a lie told is appended, "
+         "clear / recover drop the lies outstanding, recover tells the given ones, update_covariances / hyperparameter assignment / gamma / "
+         "set assignment replace what they name) and closed forms for it: C4 Matern kernel means, +1e-10 floor, 1/(gamma + (1-gamma) g/l)")
+  d = init["dim"]
+  base = {True: [list(r) for r in init["lower"]], False: [list(r) for r in init["greater"]]}
+  told = {True: [], False: []}
+  gamma = init["gamma"] if inp.get("start") == "search" else inp["gamma"]
+  hyp = {True: list(init["hl"] if inp.get("start") == "search" else inp["hyper_l"]), False: list(init["hg"] if inp.get("start") == "search" else inp["hyper_g"])}
+  if not (0 < gamma < 1) or not base[True] or not base[False]:
+    return None                                  # the search view's gamma = 0 / empty greater set is the recorded finding, not a history matter
+  def ktol(alpha, ls, S, x):
+    M = max(sum((a / l) ** 2 + (b / l) ** 2 for a, b, l in zip(x, q, ls)) for q in S)
+    return alpha * (1e-14 * M + 1e-14)
+  def dens(low, x):
+    S, h = base[low] + told[low], hyp[low]
+    v = sum(c4(h[0], h[1:], x, q) for q in S) / len(S) + (1e-10 if low else 0.0)
+    return v, ktol(h[0], h[1:], S, x)
+  seen = {}                                      # (side, point) -> (set, kernel, density) at the previous evaluation there
+  def check_density(i, low, x, got):
+    want, tol = dens(low, x)
+    side = "lower" if low else "greater"
+    if not (math.isfinite(got) and abs(got - want) <= tol and got >= (1e-10 if low else 0.0)):
+      return fail(kind, f"{side} density is the kernel mean over the {side} set the estimator holds now" + (" plus the floor" if low else ""), inp,
+                  dict(after_op=i, op=ops[i], point=x, got=got), dict(want=want, tol=tol, set_size=len(base[low]) + len(told[low]), kernel=hyp[low]), txt)
+    S = sorted(map(tuple, base[low] + told[low]))
+    prev = seen.get((low, tuple(x)))
+    if prev is not None and prev[1] == hyp[low]:
+      rest = list(S)
+      try:
+        for q in prev[0]:
+          rest.remove(q)
+      except ValueError:
+        rest = None
+      if rest and all(q == tuple(x) for q in rest):
+        STATS["lie_monotone"] += 1
+      if prev[0] != S:
+        STATS["re_evaluated"] += 1
+      if rest and all(q == tuple(x) for q in rest) and got < prev[2] - tol:
+        return fail(kind, "a lie at a location does not lower the density there", inp,
+                    dict(after_op=i, point=x, before=prev[2], after=got, lies_there=len(rest)), "after >= before", txt)
+    seen[(low, tuple(x))] = (S, list(hyp[low]), got)
+    return None
+  for i, (op, o, snap) in enumerate(zip(ops, outs, snaps)):
+    k = op[0]
+    if k == "append":
+      told[bool(op[2])] += [list(r) for r in op[1]]
+    elif k == "clear":
+      told = {True: [], False: []}
+    elif k == "recover":
+      told = {True: [list(r) for r in op[1]], False: [list(r) for r in op[2]]}
+    elif k == "stash":
+      if [o[1], o[2]] != [told[True], told[False]]:
+        return fail(kind, "stash holds the lies outstanding", inp, dict(after_op=i, got=o[1:]), [told[True], told[False]], txt)
+    elif k == "cov":
+      ok = len(op[1]) == len(op[2]) == d + 1
+      if ok != (o[0] != "err"):
+        return fail(kind, "update_covariances accepts exactly the kernels of the estimator's dimension", inp, dict(after_op=i, got=o), dict(accepted=ok), txt)
+      if ok:
+        hyp = {True: list(op[1]), False: list(op[2])}
+    elif k == "cov_set":
+      hyp[bool(op[1])] = list(op[2])
+    elif k == "gamma":
+      gamma = op[1]
+    elif k in ("lower", "greater"):
+      if told[k == "lower"]:
+        return None                              # a set assigned over outstanding lies: what "the lies" are afterwards is not stated
+      base[k == "lower"] = [list(r) for r in op[1]]
+    # what the estimator holds
+    for low, name in ((True, "lower"), (False, "greater")):
+      if sorted(map(tuple, snap[name])) != sorted(map(tuple, base[low] + told[low])):
+        return fail(kind, f"{name} set is the split's set plus the lies outstanding", inp, dict(after_op=i, op=op, got=snap[name]), base[low] + told[low], txt)
+    if snap["gamma"] != gamma or snap["hl"] != hyp[True] or snap["hg"] != hyp[False]:
+      return fail(kind, "gamma and kernels are the ones last given", inp, dict(after_op=i, got=[snap["gamma"], snap["hl"], snap["hg"]]), [gamma, hyp[True], hyp[False]], txt)
+    if k not in EVALS:
+      continue
+    if k in ("ldens", "gdens"):
+      for x, got in zip(op[1], o[1]):
+        f = check_density(i, k == "ldens", list(x), got)
+        if f:
+          return f
+      continue
+    if k == "objective":
+      l, tl = dens(True, op[1])
+      g, tg = dens(False, op[1])
+      want = 1.0 / (gamma + (1 - gamma) * g / l)
+      tol = want * want * (1 - gamma) * (tg / l + g * tl / (l * l)) * 2 + 1e-12 * want   # first-order propagation of the two density bounds
+      if not (math.isfinite(o[1]) and abs(o[1] - want) <= tol and 0 < o[1] <= (1 / gamma) * (1 + 1e-12)):
+        return fail(kind, "objective is the ratio 1/(gamma + (1-gamma) greater/lower) of the current densities, in (0, 1/gamma]", inp,
+                    dict(after_op=i, point=op[1], got=o[1]), dict(want=want, tol=tol, gamma=gamma), txt)
+      continue
+    for x, (l, g, e) in zip(op[1], o[1]):
+      for low, got in ((True, l), (False, g)):
+        f = check_density(i, low, list(x), got)
+        if f:
+          return f
+      er = 1.0 / (gamma + (1 - gamma) * g / l)
+      if not (math.isfinite(e) and abs(e - er) <= 1e-12 * max(1.0, abs(er))):
+        return fail(kind, "ratio equals 1/(gamma + (1-gamma) greater/lower) for the gamma held now", inp, dict(after_op=i, point=x, got=e), dict(want=er, gamma=gamma), txt)
+      if not (0 < e <= (1 / gamma) * (1 + 1e-12)):
+        return fail(kind, "ratio lies in (0, 1/gamma]", inp, dict(after_op=i, point=x, got=e), [0, 1 / gamma], txt)
+  return None
+
+
 def oracle(kind, inp):
   inp = {k: v for k, v in inp.items() if k != "kind"}
+  if kind == "hist":
+    return oracle_hist(inp)
   if kind == "split":
     return oracle_split(inp)
   if kind in ("dens", "lie"):
@@ -688,7 +1099,68 @@ def widen(rng, kind, inp):
   if kind == "search":
     inp["values"] = [[v + rng.choice([0.0, rng.gauss(0, 1)]) for v in row] for row in inp["values"]]
     return inp
+  if kind == "hist":
+    return widen_hist(rng, inp)
   return inp
+
+
+def widen_hist(rng, inp):
+  """Real floats: an affine map per coordinate applied to every point of the history (coincidences between lies, evaluation points and
+  observations survive), real hyperparameters and gammas, value-then-gradient calls; or the estimator the search view builds as the
+  object the history runs on (its sets, gamma and kernels were assigned by the view itself)."""
+  real_h = lambda dim: [rng.uniform(0.1, 5)] + [10 ** rng.uniform(-1.5, 1.5) for _ in range(dim)]
+  if rng.random() < 0.25:
+    sinp = gen_search(rng, force="mixed")
+    sinp["pts"] = sinp["pts"] + gen_cat_points(rng, sinp["comps"], rng.randint(0, 6))
+    sinp["values"] = sinp["values"] + [[float(rng.randint(-8, 8)) for _ in sinp["objectives"]] for _ in range(len(sinp["pts"]) - len(sinp["values"]))]
+    if len(sinp["pts"]) < 10:
+      return inp
+    dim, _ = one_hot_layout(sinp["comps"])
+    rows = one_hot_rows(sinp["comps"], sinp["pts"]) + one_hot_rows(sinp["comps"], gen_cat_points(rng, sinp["comps"], 6))
+    ops = gen_hist_ops(rng, dim, rows, 10 ** 6, 10 ** 6, allow_assign=False)
+    ops = [o for o in ops if o[0] != "cov" or len(o[1]) == dim + 1]
+    for o in ops:
+      if o[0] == "cov":
+        o[1], o[2] = real_h(dim), real_h(dim)
+      elif o[0] == "cov_set":
+        o[2] = real_h(dim)
+    return dict(start="search", search=sinp, ops=ops)
+  dim = len(inp["pts"][0])
+  a = [rng.choice([1.0, rng.uniform(0.05, 3.0), 10.0 ** rng.randint(-3, 3)]) for _ in range(dim)]
+  b = [rng.choice([0.0, rng.uniform(-5, 5)]) for _ in range(dim)]
+  mp = lambda p: [ai * v + bi for ai, bi, v in zip(a, b, p)]
+  scale_h = lambda h: [h[0]] + [abs(ai) * l for ai, l in zip(a, h[1:])]
+  jitter = lambda h: [rng.uniform(0.1, 5)] + [l * 10 ** rng.uniform(-1, 1) for l in h[1:]]
+  out = dict(inp, pts=[mp(p) for p in inp["pts"]], gamma=rng.uniform(0.001, 0.999),
+             hyper_l=jitter(scale_h(inp["hyper_l"])), hyper_g=jitter(scale_h(inp["hyper_g"])))
+  out["vals"] = [v + rng.choice([0.0, rng.gauss(0, 1e-3)]) for v in inp["vals"]]
+  n = len(out["pts"])
+  gm = Fraction(out["gamma"]) * n
+  if near_int(gm) or max(math.floor(gm), 3) > n - 1:
+    out["gamma"] = inp["gamma"]
+  ops = []
+  for o in inp["ops"]:
+    k = o[0]
+    if k == "append":
+      ops.append([k, [mp(p) for p in o[1]], o[2]])
+    elif k == "recover":
+      ops.append([k, [mp(p) for p in o[1]], [mp(p) for p in o[2]]])
+    elif k in ("lower", "greater", "eval", "ldens", "gdens"):
+      ops.append([k, [mp(p) for p in o[1]]] + list(o[2:]))
+      if k == "eval" and rng.random() < 0.3:
+        ops.append(["grad", ops[-1][1]])
+    elif k == "objective":
+      ops.append([k, mp(o[1])])
+    elif k == "cov":
+      ops.append([k, jitter(scale_h(o[1])) if len(o[1]) == dim + 1 else o[1], jitter(scale_h(o[2]))])
+    elif k == "cov_set":
+      ops.append([k, o[1], jitter(scale_h(o[2]))])
+    elif k == "gamma":
+      ops.append([k, rng.uniform(0.001, 0.999)])
+    else:
+      ops.append(list(o))
+  out["ops"] = ops
+  return out
 
 
 def search(ctx, hints, broken):
@@ -719,7 +1191,9 @@ def search(ctx, hints, broken):
     if new >= 3:
       break
   return dict(evaluations=n, failures=fails,
-              oracle="plain-Python restatement: floor sizes / multiset / value separation; closed-form C4 kernel means and ratio; own satisfier rule on raw values")
+              oracle="plain-Python restatement: floor sizes / multiset / value separation; closed-form C4 kernel means and ratio; own satisfier rule on raw values; "
+                     "histories on one live estimator (constructor's or the search view's) against plain bookkeeping of the sets / kernels / gamma it must hold "
+                     f"(this run: {STATS['re_evaluated']} re-evaluations of a point after the set changed, {STATS['lie_monotone']} lie-monotonicity comparisons)")
 
 
 def replay(ctx, payload):
@@ -732,8 +1206,12 @@ LEVEL_TEXT = ("Coq theorems on an executable model of the estimator's constructo
               "every sorting permutation), of the densities / ratio / lies over Q for all kernel values in [0, alpha] (non-negativity, floor, formula, "
               "range (0, 1/gamma], monotonicity under lies), of the bandwidth selection with its fallback (always finite positive) and of the search "
               "variant's threshold split; the search variant's ratio clause is proved under 'some observation violates' and REFUTED without it "
-              "(known finding). The model is tied to the code by differential runs evaluated inside Coq: exact for the split (with the logged argsort "
-              "permutation), 1e-12 for densities, ratio and bandwidths computed with the real covariance")
+              "(known finding); over histories on one live object (lies told / withdrawn / replaced / stashed / recovered, kernels replaced or "
+              "re-tuned in place, gamma and sets assigned directly, evaluations in between) every evaluation is the fresh estimator's answer for "
+              "the content the mutations leave, evaluations read only, lies raise the reported density, the ratio clause holds at every moment "
+              "(Props/C16_hist.v, for every kernel function). The model is tied to the code by differential runs evaluated inside Coq: exact for the split (with the logged argsort "
+              "permutation), 1e-12 for densities, ratio and bandwidths computed with the real covariance; op-sequence correspondence of histories on the real estimator "
+              "class (outputs of every operation and the object's sets / lies / gamma / hyperparameters after it) with a rational radial kernel")
 LEVEL_NOTE = ("Exact arithmetic over Q; floating-point rounding of int(gamma*n) at non-dyadic gamma is outside the model (the searcher skips products "
               "within 1e-9 of an integer); kernel validity is an input contract (C03); harness and check function trusted; no axioms")
 TECHNIQUE = "Coq proof (induction, permutation / sortedness lemmas, field arithmetic over Q) on executable model + in-Coq differential correspondence"
